@@ -5,6 +5,7 @@
 // operations specified by C01 (lookup decides membership, len counts the elements).  std's Iterator::chain is
 // the concatenation of the two iterators (assumed).
 use core::marker::PhantomData;
+use vstd::std_specs::cmp::PartialEqSpec;
 
 pub struct HashSet<T> {
     pub v: Ghost<Set<T>>,
@@ -77,4 +78,57 @@ impl<'a, T> Intersection<'a, T> {
     pub open spec fn will_yield(&self, x: T) -> bool {
         exists|k: int| self.iter.pos@ <= k < self.iter.s@.len() && #[trigger] self.iter.s@[k] == x && self.other.v@.contains(x)
     }
+}
+
+// ---- HashMap view for `==` ----
+pub struct HashMap<K, V> {
+    pub m: Ghost<Map<K, V>>,
+    /// the order in which iter() yields the entries: every key of `m` exactly once, with its value
+    pub order: Ghost<Seq<(K, V)>>,
+}
+pub struct MapIter<'a, K, V> {
+    pub s: Ghost<Seq<(K, V)>>,
+    pub pos: Ghost<int>,
+    pub m: PhantomData<&'a (K, V)>,
+}
+impl<K, V> HashMap<K, V> {
+    pub open spec fn wf(&self) -> bool {
+        &&& self.m@.dom().finite()
+        &&& self.order@.len() == self.m@.dom().len()
+        &&& forall|i: int, j: int| 0 <= i < j < self.order@.len() ==> self.order@[i].0 != self.order@[j].0
+        &&& forall|i: int| 0 <= i < self.order@.len() ==> self.m@.dom().contains(#[trigger] self.order@[i].0) && self.m@[self.order@[i].0] == self.order@[i].1
+        &&& forall|k: K| self.m@.dom().contains(k) ==> exists|i: int| 0 <= i < self.order@.len() && #[trigger] self.order@[i].0 == k
+    }
+    #[verifier::external_body]
+    pub fn len(&self) -> (r: usize)
+        requires self.wf(),
+        ensures r == self.m@.dom().len(),
+    { unimplemented!() }
+    #[verifier::external_body]
+    pub fn get<'a>(&'a self, k: &K) -> (r: Option<&'a V>)
+        ensures
+            r matches Some(v) ==> self.m@.dom().contains(*k) && *v == self.m@[*k],
+            r is None ==> !self.m@.dom().contains(*k),
+    { unimplemented!() }
+    #[verifier::external_body]
+    pub fn iter<'a>(&'a self) -> (r: MapIter<'a, K, V>)
+        ensures r.s@ == self.order@, r.pos@ == 0,
+    { unimplemented!() }
+}
+impl<'a, K, V> MapIter<'a, K, V> {
+    pub open spec fn ok(&self) -> bool { 0 <= self.pos@ <= self.s@.len() }
+    #[verifier::external_body]
+    pub fn next(&mut self) -> (r: Option<(&'a K, &'a V)>)
+        requires old(self).ok(),
+        ensures
+            final(self).s@ == old(self).s@, final(self).ok(),
+            r matches Some(kv) ==> old(self).pos@ < old(self).s@.len() && *kv.0 == old(self).s@[old(self).pos@].0 && *kv.1 == old(self).s@[old(self).pos@].1
+                && final(self).pos@ == old(self).pos@ + 1,
+            r is None ==> old(self).pos@ == old(self).s@.len() && final(self).pos@ == old(self).pos@,
+    { unimplemented!() }
+}
+/// the mathematical answer: same keys, and the values under each key compare equal
+pub open spec fn maps_equal<K, V: PartialEq>(a: Map<K, V>, b: Map<K, V>) -> bool {
+    &&& forall|k: K| a.dom().contains(k) <==> b.dom().contains(k)
+    &&& forall|k: K| a.dom().contains(k) ==> #[trigger] a[k].eq_spec(&b[k])
 }
